@@ -341,3 +341,26 @@ Theorem C12_identical_examples :
   identical_N 4 []%N []%N = true /\ identical_N 4 []%N [1]%N = false /\ identical_N 4 [1]%N []%N = false.
 Proof. exact IdenticalFilesProofs.identical_examples. Qed.
 Print Assumptions C12_identical_examples.
+
+(* a whole run in the copy modes (the directory as a map path -> entry, the files written in asn1c's order, a path possibly
+   more than once): every file the run writes is what a run into an EMPTY directory leaves there, whatever the directory
+   held — provided no symbolic link sits where a file is rewritten in place — and every other entry is left alone:
+   the statement the oracle `oracle:outdir-state` evaluates on the C *)
+Theorem C12_run_dir_is_fresh : forall (A : Type) (eqb : A -> A -> bool),
+  (forall x y, eqb x y = true <-> x = y) -> forall B : nat, B > 0 ->
+  forall (outs : list (nat * wop A)) (d : dir A), nolink A d outs ->
+  forall q, In q (map fst outs) -> run_dir A eqb B d outs q = run_dir A eqb B (empty_dir A) outs q.
+Proof. exact IdenticalFilesProofs.run_dir_is_fresh. Qed.
+Print Assumptions C12_run_dir_is_fresh.
+
+Theorem C12_run_dir_untouched : forall (A : Type) (eqb : A -> A -> bool) (B : nat)
+  (outs : list (nat * wop A)) (d : dir A) (q : nat),
+  ~ In q (map fst outs) -> run_dir A eqb B d outs q = d q.
+Proof. exact IdenticalFilesProofs.run_dir_untouched. Qed.
+Print Assumptions C12_run_dir_untouched.
+
+(* the side condition cannot be dropped (finding C12-inplace-file-through-symlink) *)
+Theorem C12_run_dir_link_refuted : exists (d : dir N) (outs : list (nat * wop N)) (q : nat),
+  In q (map fst outs) /\ run_dir N N.eqb 4096 d outs q <> run_dir N N.eqb 4096 (empty_dir N) outs q.
+Proof. exact IdenticalFilesProofs.run_dir_link_refuted. Qed.
+Print Assumptions C12_run_dir_link_refuted.
